@@ -33,6 +33,10 @@ def gen(seed, tier):
             case["dfltB"] = rng.choice([v for v in (0, 7, -1) if v != dflt])
         b = H.gen_tree(rng, d + 1, n, pool, case.get("dfltB", dflt))
         case.update({"a": a, "b": b})
+        if kind == "owned" and rng.random() < 0.35:
+            # the ranks BELOW the co-iterated (compressed) rank declared uncompressed, per operand: whether an
+            # element of the top rank is empty does not depend on how the ranks below would be iterated
+            case["lowU"] = rng.choice([[True, False], [False, True], [True, True]])
         yield case
     # uncompressed-format operands: every coordinate of the shape is presented
     small = list(H.all_leaf_fibers(3, [0, 1]))
@@ -80,7 +84,8 @@ def gen(seed, tier):
         ops = [H.gen_tree(rng, d + 1, n, (1, 2, -3, 7, 0), dflt) for _ in range(kk)]
         yield {"prop": PROP, "op": rng.choice(["nand", "nor", "lf"]), "d": d, "dflt": dflt, "ops": ops,
                "kind": rng.choice(["free", "owned"]),
-               "stale": rng.random() < 0.3}
+               "stale": rng.random() < 0.3,
+               **({"lowU": [rng.random() < 0.6 for _ in range(kk)]} if d >= 1 and rng.random() < 0.4 else {})}
     yield from gen_tuple(seed, tier)
 
 
@@ -215,6 +220,9 @@ def _run_nary(case):
         f = H.build_fiber(t, d + 1, dflt)
         if case["kind"] == "owned":
             tt = ft.Tensor.fromFiber(rank_ids=[f"R{d - i}" for i in range(d + 1)], fiber=f, default=dflt)
+            if case.get("lowU") and case["lowU"][len(tensors) % len(case["lowU"])]:
+                for i in range(1, d + 1):
+                    tt.setFormat(f"R{d - i}", "U")
             tensors.append(tt)
             f = tt.getRoot()
         fibers.append(f)
@@ -314,6 +322,9 @@ def run(case):
         ids = [f"R{d - i}" for i in range(d + 1)]
         ta = ft.Tensor.fromFiber(rank_ids=ids, fiber=fa, default=dflt)
         tb = ft.Tensor.fromFiber(rank_ids=ids, fiber=fb, default=dfltB)
+        for t, low in zip((ta, tb), case.get("lowU", [False, False])):
+            for rid in (ids[1:] if low else []):
+                t.setFormat(rid, "U")
         tensors = [ta, tb]
         fa, fb = ta.getRoot(), tb.getRoot()
     before = (H.snapshot(fa), H.snapshot(fb), [_ranks(t) for t in tensors])
